@@ -50,6 +50,12 @@ REGISTERED_PORTS = {u'http': 80, u'https': 443, u'ftp': 21, u'svn+ssh': 22, u'gi
 def cases(rng, tier):
 	for p in (u'/', u'/..', u'/../x', u'/a/../../b/.', u'//', u'/a//b/../', u'/./././', u'/.../..a/a../..'):
 		yield ('path', p)
+	# many separate slash runs (a count limit in the collapsing step), long runs, many dot segments
+	for k in (31, 32, 33, 34, 64, 100, 257):
+		yield ('path', u'/a' + u'//b' * k)
+		yield ('path', u'/a' + u'//b/..' * k + u'/c')
+		yield ('path', u'/' * k + u'a' + u'/' * k)
+		yield ('path', u'/x' * k + u'/..' * (k - 1))
 	maxn = 7 if tier == 'thorough' else 6
 	if tier == 'quick':
 		# all up to 5 exhaustively, a seeded third of length 6
@@ -176,6 +182,20 @@ def impl_abspath(p):
 	return u.path
 
 
+def reparsed(text):
+	from httoop.uri import URI
+	w = URI(b'http://old.example:8080/old?o=1#o')
+	w.parse(text.encode('utf-8'))
+	return w
+
+
+def reset(text):
+	from httoop.uri import URI
+	w = URI(b'ftp://old.example/old')
+	w.set(text.encode('utf-8'))
+	return w
+
+
 def built(pairs):
 	from httoop.uri import URI
 	u = URI()
@@ -242,6 +262,16 @@ def oracle(case):
 			u = URI(case[1].encode('utf-8'))
 		except Exception:
 			return None
+		# an object that held another URI before, and a scheme class given a URI of another scheme, read the text like a fresh object
+		try:
+			from httoop.uri import HTTP
+			fresh = (type(u), u.tuple, u.port)
+			for how, mk in (('parsed into a used object', lambda: reparsed(case[1])), ('set() on a used object', lambda: reset(case[1])), ('HTTP(text)', lambda: HTTP(case[1].encode('utf-8')))):
+				w = mk()
+				if (type(w), w.tuple, w.port) != fresh:
+					return {'what': '%s gives %r (%s, port %r), URI(text) gives %r (%s, port %r)' % (how, w.tuple, type(w).__name__, w.port, fresh[1], fresh[0].__name__, fresh[2]), 'uri': case[1], 'finding': None}
+		except ImportError:
+			pass
 		u.normalize()
 		once = (type(u), u.tuple)
 		u.normalize()
